@@ -174,6 +174,28 @@ func vIntrinsic(name string) intrinsic {
 			}
 			return in.mkInt(int64(def))
 		}
+	case "vshared":
+		return func(in *Interp, fr *frame, a []Value) Value {
+			if in.race == nil {
+				in.race = &raceState{cells: map[*Value]string{}, maps: map[*Map]string{}, enabled: true}
+			}
+			in.raceShare(a[0], concStr(a[1]), 0)
+			return nil
+		}
+	case "vthread":
+		return func(in *Interp, fr *frame, a []Value) Value {
+			if in.race == nil {
+				in.race = &raceState{cells: map[*Value]string{}, maps: map[*Map]string{}, enabled: true}
+			}
+			in.race.thread = concInt(a[0])
+			return nil
+		}
+	case "vraceCheck":
+		return func(in *Interp, fr *frame, a []Value) Value {
+			in.race.thread = 0
+			in.raceCheck(fr)
+			return nil
+		}
 	case "vsameArray":
 		// do two slices share their backing array cell at index 0? (aliasing probe)
 		return func(in *Interp, fr *frame, a []Value) Value {
